@@ -25,6 +25,8 @@ pub struct Fixture {
     pub fibex_ref: Element,
     pub fibex_ref2: Element,
     pub sn_a: Element,
+    /// AR-PACKAGES below package A (destination of moves whose source parent is an ancestor of the destination)
+    pub sub_a: Element,
 }
 
 pub const DOC_NEW: &str = "<?xml version=\"1.0\" encoding=\"utf-8\"?>\n<AUTOSAR xsi:schemaLocation=\"http://autosar.org/schema/r4.0 AUTOSAR_00050.xsd\" xmlns=\"http://autosar.org/schema/r4.0\" xmlns:xsi=\"http://www.w3.org/2001/XMLSchema-instance\"><AR-PACKAGES><AR-PACKAGE><SHORT-NAME>Loaded</SHORT-NAME><ELEMENTS><SYSTEM><SHORT-NAME>LSys</SHORT-NAME></SYSTEM></ELEMENTS></AR-PACKAGE></AR-PACKAGES></AUTOSAR>";
@@ -57,6 +59,7 @@ pub fn fixture(mixed_versions: bool) -> Fixture {
         .and_then(|c| c.create_sub_element(ElementName::FibexElementRef))
         .unwrap();
     let sn_a = pkg_a.get_sub_element(ElementName::ShortName).unwrap();
+    let sub_a = pkg_a.create_sub_element(ElementName::ArPackages).unwrap();
     Fixture {
         model,
         f1,
@@ -72,6 +75,7 @@ pub fn fixture(mixed_versions: bool) -> Fixture {
         fibex_ref,
         fibex_ref2,
         sn_a,
+        sub_a,
     }
 }
 
@@ -119,6 +123,7 @@ pub fn catalogue() -> Vec<OpDef> {
         OpDef { name: "pkg_a.set_item_name(A2)", writer: true, run: |f| r(f.pkg_a.set_item_name("A2"), |()| String::new()) },
         OpDef { name: "ecu.set_item_name(Ecu2)", writer: true, run: |f| r(f.ecu.set_item_name("Ecu2"), |()| String::new()) },
         OpDef { name: "elements_b.move(ecu)", writer: true, run: |f| r(f.elements_b.move_element_here(&f.ecu), |e| e.item_name().unwrap_or_default()) },
+        OpDef { name: "sub_a.move(pkg_b)", writer: true, run: |f| r(f.sub_a.move_element_here(&f.pkg_b), |e| e.item_name().unwrap_or_default()) },
         OpDef { name: "sn_a.set_character_data(A3)", writer: true, run: |f| r(f.sn_a.set_character_data("A3"), |()| String::new()) },
         OpDef { name: "ref.set_reference_target(sig)", writer: true, run: |f| r(f.fibex_ref.set_reference_target(&f.signal), |()| String::new()) },
         OpDef { name: "ref2.set_reference_target(ecu)", writer: true, run: |f| r(f.fibex_ref2.set_reference_target(&f.ecu), |()| String::new()) },
@@ -321,9 +326,11 @@ fn judge(prop: &str, rep: &mut Report, ops: &[&OpDef], mixed: bool, out: &Outcom
         if class == "result" && !readers.is_empty() {
             let mut rs = readers.clone();
             rs.sort();
+            let mut ws: Vec<&str> = ops.iter().filter(|o| o.writer).map(|o| o.name).collect();
+            ws.sort();
             rep.violation(
                 "not-serializable",
-                &format!("C16:not-serializable:torn-read:{}", rs.join(" + ")),
+                &format!("C16:not-serializable:torn-read:{}{}", rs.join(" + "), if ws.is_empty() { String::new() } else { format!(" vs {}", ws.join(" + ")) }),
                 &format!("{pair} [{schedule_desc}]: the reader returns {results:?}, which is not what it returns before or after the concurrent writer(s); sequential results: {:?}", seq.0.iter().map(|s| s.results.clone()).collect::<Vec<_>>()),
                 replay(),
             );
